@@ -6,7 +6,7 @@ import ast, itertools
 from .core import ( rule, Result, AnalysisError, dotted, call_name, is_call_to, names_in, attrs_in, walk_no_nested,
                     norm_text, dotted_in, stmt_of, pmatch, pfind, txt )
 from .core import Matcher
-from .fold import fold, try_fold, NoFold, run_block, Record, Raises
+from .fold import fold, try_fold, NoFold, run_block, Record, Raises, method_calls
 from .cfg import CFG, INF
 from . import spec
 
@@ -2497,6 +2497,7 @@ def w_print( ctx ):
                                 continue
                             env = { 'self.name': 'T', 'len': lambda x: 8 if x == 'SELF' else len( x ), 'self': 'SELF', KEY: key, VALUE: value, 'isinstance': isinstance, 'slice': slice,
                                     KEY + '.indices': ( key.indices if isinstance( key, slice ) else None ), KEY + '.start': getattr( key, 'start', None ), KEY + '.stop': getattr( key, 'stop', None ) }
+                            env.update( method_calls( c, env ))		# helpers of the wrapper class ( self.span( key ) )
                             res.cells += 1
                             try:
                                 fold( pc.args[0], env )
